@@ -1,3 +1,4 @@
+import JanetModel.Gen.Lib
 /- C17: reference definitions of janet's string / buffer / array / tuple library functions and of the
    boot.janet sequence combinators.  Core Lean only (linked into the driver jm_c17).
 
@@ -6,6 +7,7 @@
    `Lib/Kmp.lean` (string.c kmp_*), `Lib/Sort.lean` (boot.janet sort-help) and `Lib/BufMem.lean`
    (buffer.c growth + memcpy order).  -/
 namespace JanetModel.Lib
+open JanetModel.Gen.Lib
 
 abbrev Bytes := List Nat
 
@@ -19,13 +21,13 @@ def getInt32 (x : Int) : Option Int := if int32Min ≤ x ∧ x ≤ int32Max then
 
 /-- capi.c `janet_gethalfrange`: `raw < 0` means `raw + length + 1`; error unless the result is in `[0,length]`. -/
 def halfrange (raw : Int) (len : Nat) : Option Nat :=
-  let nr : Int := if raw < 0 then raw + (len : Int) + 1 else raw
-  if nr < 0 ∨ nr > (len : Int) then none else some nr.toNat
+  let nr : Int := if raw < 0 then raw + (len : Int) + halfAdj else raw
+  if nr < 0 ∨ (if halfUpperIncl then nr > (len : Int) else nr ≥ (len : Int)) then none else some nr.toNat
 
 /-- capi.c `janet_getargindex`: `raw < 0` means `raw + length`; NOTE the C accepts `not_raw == length`. -/
 def argindex (raw : Int) (len : Nat) : Option Nat :=
-  let nr : Int := if raw < 0 then raw + (len : Int) else raw
-  if nr < 0 ∨ nr > (len : Int) then none else some nr.toNat
+  let nr : Int := if raw < 0 then raw + (len : Int) + argAdj else raw
+  if nr < 0 ∨ (if argUpperIncl then nr > (len : Int) else nr ≥ (len : Int)) then none else some nr.toNat
 
 /-- `janet_getstartrange`: absent / nil argument = 0. -/
 def startrange (arg : Option Int) (len : Nat) : Option Nat :=
@@ -46,7 +48,7 @@ def getslice (s e : Option Int) (len : Nat) : Option (Nat × Nat) :=
   | some st =>
     match endrange e len with
     | none => none
-    | some en => some (st, if en < st then st else en)
+    | some en => some (st, if sliceClamp && decide (en < st) then st else en)
 
 /-- `string/slice`, `buffer/slice`, `array/slice`, `tuple/slice`, `slice`: elements `[start,end)`. -/
 def slice {α : Type} (l : List α) (s e : Option Int) : Option (List α) :=
@@ -123,7 +125,7 @@ def join (parts : List Bytes) (sep : Bytes) : Bytes :=
 
 def inSet (set : Bytes) (x : Nat) : Bool := set.contains x
 
-def defaultTrimSet : Bytes := [32, 9, 13, 10, 11, 12]   -- " \t\r\n\v\f"
+def defaultTrimSet : Bytes := trimSet   -- " \t\r\n\v\f", from string.c
 
 /-- `string/triml`: drop the longest prefix made of bytes of `set`. -/
 def triml (s set : Bytes) : Bytes := s.dropWhile (inSet set)
@@ -149,8 +151,8 @@ def repeatBytes (s : Bytes) (n : Int) : Option Bytes :=
   else if s = [] then some []       -- (same value as the next line; avoids building 2^31 empty chunks)
   else some ((List.replicate n.toNat s).flatten)
 
-def asciiUpper (s : Bytes) : Bytes := s.map (fun c => if 97 ≤ c ∧ c ≤ 122 then c - 32 else c)
-def asciiLower (s : Bytes) : Bytes := s.map (fun c => if 65 ≤ c ∧ c ≤ 90 then c + 32 else c)
+def asciiUpper (s : Bytes) : Bytes := s.map (fun c => if upperFrom ≤ c ∧ c ≤ upperTo then c - upperSub else c)
+def asciiLower (s : Bytes) : Bytes := s.map (fun c => if lowerFrom ≤ c ∧ c ≤ lowerTo then c + lowerAdd else c)
 
 def hasPrefix (pfx s : Bytes) : Bool := s.take pfx.length == pfx
 def hasSuffix (sfx s : Bytes) : Bool := decide (sfx.length ≤ s.length) && (s.drop (s.length - sfx.length) == sfx)
